@@ -909,6 +909,9 @@ func (env *SpecEnv) call(e *SExpr) SVal {
 		case "sameArray":
 			// two slices share their backing array
 			a, b := env.eval(args[0]), env.eval(args[1])
+			if a.NoCall || b.NoCall || a.T == nil || b.T == nil {
+				return SVal{T: False, Typ: types.Typ[types.Bool]}
+			}
 			return SVal{T: And(Eq(Field(a.T, 0), Field(b.T, 0)), Not(Eq(Field(a.T, 0), IntLit(0)))), Typ: types.Typ[types.Bool]}
 		case "closed", "closeonly":
 			// channel predicates: closed(c) = c has been closed; closeonly(c) = nothing is ever sent on c
